@@ -61,6 +61,28 @@ def execute(c):
     if call["method"] != "exact":
         kw["method"] = call["method"]
     events = []
+    if c.get("tid", 0) % 2 == 0:
+        # history of the same object (xarray keeps one accessor object per array): the same labels looked up before
+        # with every other method, and with begin / end exchanged, must leave no trace in this call
+        for m in [None, "nearest", "ffill", "bfill"]:
+            if m == kw.get("method"):
+                continue
+            for swap in (False, True):
+                kw2 = {k: v for k, v in kw.items() if k != "method"}
+                if swap:
+                    b_, e_ = kw2.pop("begin", None), kw2.pop("end", None)
+                    if b_ is not None:
+                        kw2["end"] = b_
+                    if e_ is not None:
+                        kw2["begin"] = e_
+                if m:
+                    kw2["method"] = m
+                try:
+                    for _r in getattr(da.hdc.iteragg, call["func"])(**kw2):
+                        break
+                except Exception:
+                    pass
+        c["primed"] = True
     try:
         gen = getattr(da.hdc.iteragg, call["func"])(**kw)
         for cnt, r in enumerate(gen):
